@@ -1101,8 +1101,10 @@ func SexpToGoStructs(
 			(calldepth == 0 || targVa.Interface() == checkPtrStruct) {
 			dedup[src] = targVa.Interface()
 		}
-		//maploop:
-		for _, arr := range src.Map {
+		// The fields are converted in the order of the record's keys, not in
+		// the order of the Go map: when several fields cannot be stored, the
+		// error must name the same one on every run.
+		for _, arr := range src.bucketsInKeyOrder() {
 			for _, pair := range arr {
 				recordKey = ""
 				switch k := pair.Head.(type) {
@@ -1427,3 +1429,18 @@ func IsExactlySinglePointer(target interface{}) bool {
 }
 
 */
+
+// bucketsInKeyOrder returns the key/value pairs of the hash, one per
+// bucket, in the order of hash.KeyOrder (the order in which the keys were
+// first set) instead of the iteration order of hash.Map.
+func (hash *SexpHash) bucketsInKeyOrder() [][]*SexpPair {
+	res := make([][]*SexpPair, 0, len(hash.KeyOrder))
+	for _, key := range hash.KeyOrder {
+		val, err := hash.HashGet(nil, key)
+		if err != nil {
+			continue // a deleted key
+		}
+		res = append(res, []*SexpPair{{Head: key, Tail: val}})
+	}
+	return res
+}
